@@ -35,6 +35,7 @@ type vfAPIEv struct {
 }
 
 func (s *vfSim) apiCall(side int, op string, sid uint16) *vfAPIEv {
+	vfProgress.Add(1)
 	ev := &vfAPIEv{CallSeq: s.net.seq.Add(1), CallT: s.net.now(), Side: side, Op: op, SID: sid}
 	s.apiMu.Lock()
 	s.api = append(s.api, ev)
